@@ -16,7 +16,13 @@ META = {
         "end-to-end leg (harness/cmd/queue/e2e.go): real gohlslib.Client over an in-memory RoundTripper, MPEG-TS and fMP4 (also fMP4 media segments of 2-4 moof+mdat parts), VOD / live / live-ending-with-a-burst, slow consumer (holds one sample per segment - the first, or the first of the last part - until the downloader is throttled AND a stop-the-world goroutine dump shows the whole client at rest) and fast consumer; also flags an end of stream reported before every sample of the downloaded segments was delivered; oracle 'downloaded - fully processed <= 2 at every segment request', which relies on the stream processors returning from processSegment only after every sample of the segment went through the data callback; "
         "and a cancellation scenario ('both return promptly on cancellation', end to end): one MPEG-TS segment of 150 access units 200 ms apart played in real time, "
         "Close() 100 ms after the third sample - the stream processor is then blocked pushing into the full 100-entry sample queue of a track processor that sleeps between two samples - "
-        "oracle: Wait() reports and no goroutine of the client is left; 'never reports' is decided by three identical all-blocked stop-the-world goroutine dumps, not by a timeout",
+        "oracle: Wait() reports and no goroutine of the client is left; 'never reports' is decided by three identical all-blocked stop-the-world goroutine dumps, not by a timeout; "
+        "a mode-selection scenario: live fMP4 playlist with EXT-X-SERVER-CONTROL (PART-HOLD-BACK only, no CAN-BLOCK-RELOAD), PART-INF and a PRELOAD-HINT whose part the server "
+        "answers at once - the client must stay in the throttled traditional mode, hinted parts count as downloaded media files in the look-ahead oracle; "
+        "and a VOD fMP4 stream (video + audio) whose second segment has an audio track fragment without samples: every video access unit of every segment must reach the callback in "
+        "order and Wait() must report the end of the stream, a stalled pipeline being recognised by four identical goroutine dumps in which every client goroutine is blocked and none "
+        "waits for a sample's presentation time. The look-ahead oracle is disarmed from the moment the harness decides to close the client (after Close no sample is delivered, while a "
+        "cancelled MPEG-TS stream processor still drains queued segments: that produced a spurious alarm in about 3 % of the runs of ts-live-slow)",
     ],
     "assumptions": [
         "one downloader and one processor goroutine per queue (as in clientStreamDownloader / clientStreamProcessor*), cancellation through the shared context",
